@@ -91,6 +91,8 @@ def evaluate(syms, mods, counters=None, deep=True):
         cnt[name] = cnt.get(name, 0) + 1
 
     pattern = "".join(syms)
+    if "{version}" in pattern or "{pep440_version}" in pattern:
+        return None
     text = "".join(sym_text(s) for s in syms)
     lead = syms[0] == "^"
     trail = syms[-1] == "$"
@@ -100,8 +102,10 @@ def evaluate(syms, mods, counters=None, deep=True):
         return None
 
     def compile_v2(p):
+        # the path every search pattern of a project takes: compile_pattern(version_pattern, raw_pattern)
+        # (normalisation + escaping + part substitution), not just the inner _compile_pattern_re
         try:
-            return v2p._compile_pattern_re(p), None
+            return v2p.compile_pattern("MAJOR.MINOR.PATCH", p).regexp, None
         except Exception as ex:
             return None, ex
 
